@@ -514,7 +514,8 @@ func propC19URL(t *rapid.T) {
 	host := rapid.SampledFrom([]string{"", "", "", "localhost", "LOCALHOST", "example.com", "127.0.0.1", "[::1]", "localhost.", "localhos"}).Draw(t, "host")
 	port := rapid.SampledFrom([]string{"", "", "", "", "80", "0"}).Draw(t, "port")
 	name := rapid.SampledFrom([]string{"a.log", "b c.log", "d%e.log", "x?y", "h#i", "sub/f.log", "ü.log", "p+q", "semi;colon", "a%2Fb", "q&r=s", "stdoutx", "a:b"}).Draw(t, "fileName")
-	query := rapid.SampledFrom([]string{"", "", "", "", "a=b", "x"}).Draw(t, "query")
+	// (a query is a query however little a form parser makes of it: separators only, semicolons, bad escapes)
+	query := rapid.SampledFrom([]string{"", "", "", "", "", "", "a=b", "x", "&", "a;b", "mode=append;perm=0600", "%zz", "rotate=%", "=", "&&"}).Draw(t, "query")
 	frag := rapid.SampledFrom([]string{"", "", "", "", "frag"}).Draw(t, "fragment")
 	os.MkdirAll(filepath.Join(dir, "sub"), 0o755)
 	p := filepath.Join(dir, name)
